@@ -4,7 +4,7 @@ Require Extraction.
 Require Import ExtrOcamlBasic.
 From Coq Require Import ZArith List Bool.
 From V Require Import base.Cal gen.RrTables gen.EasterGen easter.EasterSpec
-  rr.RRBase rr.RRNorm rr.RRMasks rr.RRIter rr.RRSpec.
+  rr.RRBase rr.RRNorm rr.RRMasks rr.RRIter rr.RRSpec rr.RRSpecX.
 Import ListNotations.
 Open Scope Z_scope.
 
@@ -75,7 +75,8 @@ Definition spec_entry (r : raw) (limit fuel : Z) : list Z :=
   [1; (if limit <=? zlen out then sterm_code SLimit else sterm_code t); 0; zlen out'] ++ map inst_code out'.
 
 (* entry 0: model; entry 1: spec; entry 2: spec_wf; entry 3: day_ok of one ordinal;
-   entry 4: (week-year, week number, weeks in that week-year) of an ordinal for wkst *)
+   entry 4: (week-year, week number, weeks in that week-year) of an ordinal for wkst;
+   entry 5: spec_xwf (the extended domain: never-matching time members and BYMONTHDAY 0 admitted) *)
 Definition dispatch (n : Z) (args : list Z) : list Z :=
   match n, args with
   | 4, [wk; o] => let '(wy, w) := week_of wk o in [wy; w; weeks_in wk wy]
@@ -88,6 +89,7 @@ Definition dispatch (n : Z) (args : list Z) : list Z :=
       | 1, [limit; fuel] => spec_entry r limit fuel
       | 2, [] => [if spec_wf r then 1 else 0]
       | 3, [o] => [if day_ok r o then 1 else 0]
+      | 5, [] => [if spec_xwf r then 1 else 0]
       | _, _ => [-1]
       end
     end
